@@ -15,6 +15,9 @@ import (
 // beyond its length, writes into the caller's other rings. The second result
 // reports whether the backing array (sentinel included) was written since.
 func FlatBacked(g geom.Geom) (geom.Geom, func() string) {
+	if g == nil {
+		return nil, func() string { return "" }
+	}
 	n := len(Flatten(g))
 	if b, ok := g.(*geom.Bounds); ok && b != nil {
 		n = 0
@@ -125,4 +128,60 @@ func LayoutCheck(g geom.Geom, f func(geom.Geom) string) (sym, detail string) {
 		return "result-changes-on-second-call", fmt.Sprintf("first %s, second %s", got, again)
 	}
 	return "", ""
+}
+
+// Render is a canonical text form of a geometry: type names, nesting and the
+// bit patterns of all coordinates (no pointer values, unlike %v on a nested
+// *Bounds).
+func Render(g geom.Geom) string {
+	pts := func(p []geom.Point) string {
+		if p == nil {
+			return "nil"
+		}
+		s := "["
+		for _, q := range p {
+			s += fmt.Sprintf("(%x %x)", math.Float64bits(q.X), math.Float64bits(q.Y))
+		}
+		return s + "]"
+	}
+	switch t := g.(type) {
+	case nil:
+		return "<nil>"
+	case geom.Point:
+		return "Point" + pts([]geom.Point{t})
+	case geom.MultiPoint:
+		return "MultiPoint" + pts(t)
+	case geom.LineString:
+		return "LineString" + pts(t)
+	case geom.MultiLineString:
+		s := "MultiLineString{"
+		for _, l := range t {
+			s += pts(l)
+		}
+		return s + "}"
+	case geom.Polygon:
+		s := "Polygon{"
+		for _, r := range t {
+			s += pts(r)
+		}
+		return s + "}"
+	case geom.MultiPolygon:
+		s := "MultiPolygon{"
+		for _, p := range t {
+			s += Render(p)
+		}
+		return s + "}"
+	case geom.GeometryCollection:
+		s := "GeometryCollection{"
+		for _, m := range t {
+			s += Render(m)
+		}
+		return s + "}"
+	case *geom.Bounds:
+		if t == nil {
+			return "Bounds(nil)"
+		}
+		return "Bounds" + pts([]geom.Point{t.Min, t.Max})
+	}
+	return fmt.Sprintf("%T?", g)
 }
